@@ -113,6 +113,14 @@ CHECKS["C15"]["text"]+=" All shapes are also published at the same time from sep
 CHECKS["C16"]["text"]+=" Registrations and clears also race with an upcasting replay through a slow chain: it must terminate with the chain's result and leave nothing blocked."
 CHECKS["C19"]["text"]+=" Inputs include inserts/updates without a value after valid traffic and entities whose JSON codec sits on pointer receivers."
 CHECKS["C03"]["text"]+=" The free-running mix keeps Async+Sequential handlers busy while publish contexts are cancelled behind them."
+DYN=" One publish in five of the random drivers passes the event through an interface value (Publish[any]): the specification makes no difference between the call forms (this is how defect D16 was found)."
+for k in ("C01","C02","C04","C05","C06","C07","C08","C20"):
+    CHECKS[k]["text"]+=DYN
+SELF=" Binding self-test: a trace the run has just recorded and validated is falsified in several ways (one clause each) and the trace specification must reject every falsified copy; an accepted one is an error of the machinery (exit 2)."
+for k in ("C01","C09","C13","C10","C11","C14","C16","C17","C18","C19"):
+    CHECKS[k]["text"]+=SELF
+CHECKS["C03"]["technique"]+="; recorded multi-goroutine executions under the race detector validated against BusTrace.tla (Bus.tla's Wait / Shutdown / Sequential-turn steps) with a watchdog"
+CHECKS["C06"]["text"]+=" A failing store Close is modelled (StoreClose(g, ok)): it is what Shutdown returns."
 checks=[]
 for p in props:
     c=CHECKS.get(p['id'])
